@@ -106,6 +106,22 @@ where
     | .ite _ _ thn els, k, i, b, ctx => atPos thn k i b ctx || atPos els k i b ctx
     | _, _, _, _, _ => false
 
+/-- bit `b` of signal `i` lies in the operand of a part-select occurring in the target: the code marks the whole
+operand of a `Part` as driven, whatever window an enclosing slice or concatenation later takes of it
+(`LHSMaskCollector.visit_value`: `Part → visit_value(value.value, ~0)`) -/
+def underPart : Expr → Nat → Nat → Ctx → Bool
+  | .op1 .u a, i, b, ctx => underPart a i b ctx
+  | .op1 .s a, i, b, ctx => underPart a i b ctx
+  | .slice a _ _, i, b, ctx => underPart a i b ctx
+  | .part a _ _ _, i, b, ctx => drivenBy a i b ctx || underPart a i b ctx
+  | .cat lo hi, i, b, ctx => underPart lo i b ctx || underPart hi i b ctx
+  | .ite _ _ thn els, i, b, ctx => underPart thn i b ctx || underPart els i b ctx
+  | _, _, _, _ => false
+
+/-- the target drives bit `b` of signal `i`: some position of it can be that bit, or the bit lies in the operand of a
+part-select inside it -/
+def drivenP (ctx : Ctx) (e : Expr) (i b : Nat) : Bool := drivenBy e i b ctx || underPart e i b ctx
+
 /-- one evaluation of a domain's logic: driven bits start from `start`, the rest keep `env` -/
 def progStep (ctx : Ctx) (prog : List Prog) (env start : Env) : Env :=
   let tg := Prog.listTargets prog
@@ -113,7 +129,7 @@ def progStep (ctx : Ctx) (prog : List Prog) (env start : Env) : Env :=
     let w := (ctx.shape i).width
     -- per bit: driven ⇒ from `start`, else from `env`
     let bits : Int := (List.range w).foldl (fun acc b =>
-      let src := if tg.any (fun t => drivenBy t i b ctx) then start.val i else env.val i
+      let src := if tg.any (fun t => drivenP ctx t i b) then start.val i else env.val i
       acc + (if ibit src b then 2 ^ b else 0)) 0
     norm (ctx.shape i) bits
   applyWrites ctx env (Prog.listWrites ctx env prog) base
